@@ -15,7 +15,7 @@ var rpcCodes = []int{14, 14, 8, 13, 7, 3, 4, 2, 1, 5, 10, 16, 12}
 func genReply(r *sim.Rng) LReply {
 	switch r.Weighted([]int{50, 25, 6, 6, 13}) {
 	case 0:
-		rep := LReply{Kind: "ok", NCerts: pick(r, []int{1, 1, 1, 2, 3, 0})}
+		rep := LReply{Kind: "ok", NCerts: pick(r, []int{1, 1, 1, 2, 3, 0}), Noise: r.Bool(0.2)}
 		for i := 0; i < rep.NCerts; i++ {
 			rep.Comments = append(rep.Comments, pick(r, []string{"", "touch", "c", "two words"}))
 		}
@@ -93,6 +93,10 @@ func genL(prop string) func(r *sim.Rng, tier string) any {
 				e.Script = append(e.Script, rep)
 			}
 			p.Endpoints = append(p.Endpoints, e)
+		}
+		if r.Bool(0.25) {
+			p.Calls = r.Range(2, 3)
+			p.GapSec = pick(r, []int{0, 1, 30, 600})
 		}
 		if prop == "C17" {
 			for i := 0; i < r.Range(2, 8); i++ {
